@@ -751,7 +751,9 @@ CONFIGS['ps_list_quick'] = dict(_BASE, immediate=True, max_chan=1,
                                 emit_to=[('list', ['r1', 's2']),
                                          ('list', ['s1', 's2']),
                                          ('list', ['s2', 'r1'])],
-                                emit_skip=[('none', []), ('one', ['s2'])])
+                                # (skip_sid as one id and as a list)
+                                emit_skip=[('none', []), ('one', ['s2']),
+                                           ('list', ['s2', 's1'])])
 
 # larger scope, seeded random histories only
 CONFIGS['ps_walk_big'] = dict(
